@@ -335,6 +335,144 @@ def session_is_current(ops, res, n):
     return last == 'ok true'
 
 
+# ---------------------------------------------------------------- every path by which block data reaches the application
+def ndef_attribute(ln, nbr=4, nbw=1, nmaxb=13, rwflag=1):
+    a = bytearray(16)
+    a[0], a[1], a[2] = 0x10, nbr, nbw
+    a[3:5] = nmaxb.to_bytes(2, 'big')
+    a[10] = rwflag
+    a[11:14] = ln.to_bytes(3, 'big')
+    a[14:16] = sum(a[:14]).to_bytes(2, 'big')
+    return bytes(a)
+
+
+def run_data_path(lites, authed, init, key, path, masks, once, blocks=None):
+    """one run of the real classes: NDEF formatted card, optional authentication, then the tamper adversary is
+    switched on and block data is fetched through `path`.  returns (observation, is_authenticated, card)"""
+    card = sim.FelicaLiteCard(lites=lites, idm=IDM, init=init, ndef=True)
+    clf, tag = make_felica(card)
+    if authed:
+        URANDOM.queue = [bytes(hash_bytes(repr((lites, path, sorted(masks.items()) if masks else None))))]
+        if tag.authenticate(key) is not True:
+            return 'setup-failed', False, card
+    pre = None
+    if path == 'has_changed':
+        pre = tag.ndef                     # undisturbed first read
+    if masks:
+        clf.tamper = sim.felica_block_tamper(masks, once)
+
+    def fetch():
+        if path == 'ndef':
+            n = tag.ndef
+            return None if n is None else ('ndef', bytes(n.octets), n.length, n.capacity, n.is_readable)
+        if path == 'has_changed':
+            if pre is None:
+                return None
+            changed = pre.has_changed
+            n = tag.ndef
+            return None if n is None else ('changed', bool(changed), bytes(n.octets))
+        if path == 'read_from_ndef_service':
+            r = tag.read_from_ndef_service(*blocks)
+            return None if r is None else ('blocks', bytes(r))
+        if path == 'read_with_mac':
+            r = tag.read_with_mac(*blocks)
+            return None if r is None else ('blocks', bytes(r))
+        if path == 'dump':
+            return ('dump', tuple(tag.dump()))
+        raise ValueError(path)
+    try:
+        o = fetch()
+    except nfc.tag.TagCommandError as e:
+        o = 'exc TagCommandError:%d' % e.errno
+    except Exception as e:  # noqa
+        o = 'exc ' + type(e).__name__
+    return o, bool(tag.is_authenticated), card
+
+
+def hash_bytes(text):
+    import hashlib
+    return hashlib.sha256(text.encode()).digest()[:16]
+
+
+def data_paths(ck, rng, quick):
+    """monitor only (the NDEF layer of tt3.py is not in the C20 models): while is_authenticated is True no API
+    other than the explicitly unprotected ones (read_without_mac, dump) may hand out block data that differs
+    from what the card holds"""
+    def rbytes(n):
+        return bytes(rng.randrange(256) for _ in range(n))
+
+    def bit(i, k):
+        m = bytearray(16)
+        m[i] = 1 << k
+        return bytes(m)
+
+    def multi():
+        m = bytearray(16)
+        for _ in range(rng.randrange(2, 9)):
+            m[rng.randrange(16)] |= 1 << rng.randrange(8)
+        return bytes(m)
+
+    key = rbytes(16)
+    for lites in (False, True):
+        for ln in ((40,) if quick else (40, 1, 16, 100, 208)):
+            nblk = (ln + 15) // 16
+            init = {0: ndef_attribute(ln), 0x82: rbytes(16), 0x87: sim.key_to_ck_block(key)}
+            for b in range(1, 14):
+                init[b] = rbytes(16)
+            true_octets = b''.join(init[b] for b in range(1, nblk + 1))[:ln]
+            db = rng.randrange(1, nblk + 1)
+            tampers = [None,
+                       {db: bit(rng.randrange(16), rng.randrange(8))},
+                       {db: multi()},
+                       {0: bit(rng.choice([1, 3, 4, 10, 11, 12, 13]), rng.randrange(8))},
+                       {0: bytes(13) + b'\x01\x00\x01'},                     # length changed, checksum adjusted
+                       {0x81: bit(rng.randrange(8), rng.randrange(8))},
+                       {0x81: multi()[:8] + bytes(8)},
+                       {db: bit(rng.randrange(16), rng.randrange(8)), 0x81: bit(rng.randrange(8), rng.randrange(8))},
+                       {b: multi() for b in range(1, nblk + 1)}]
+            for authed in (False, True):
+                for masks in tampers:
+                    for once in ((False,) if masks is None else (False, True)):
+                        for path in ('ndef', 'has_changed', 'read_from_ndef_service', 'read_with_mac', 'dump'):
+                            if path == 'read_with_mac' and not authed:
+                                continue
+                            if path == 'dump' and (quick and masks is not None and once):
+                                continue
+                            blocks = [0] + rng.sample(range(1, 14), rng.randrange(0, 3)) if path.startswith('read_') else None
+                            if blocks is not None and masks and not any(b in masks for b in blocks) and 0x81 not in masks:
+                                blocks[-1] = next(iter(masks))
+                            o, isauth, card = run_data_path(lites, authed, init, key, path, masks, once, blocks)
+                            case = {'family': 'data-path', 'lites': lites, 'authenticated': authed, 'path': path,
+                                    'tamper': None if masks is None else {str(b): hx(m) for b, m in masks.items()}, 'once': once,
+                                    'blocks': blocks, 'ln': ln, 'obs': repr(o)[:200], 'key': hx(key),
+                                    'init': {str(b): hx(v) for b, v in sorted(init.items())}}
+                            kind = 'lites' if lites else 'lite'
+                            ck.case(repr(case), masks is not None, {'kind': 'data-path ' + path, 'case': case})
+                            ck.count('data-path:%s:%s' % (path, 'auth' if authed else 'plain'))
+                            if o == 'setup-failed':
+                                ck.violation(kind + '-auth-false-right-key', 'authenticate failed on an undisturbed exchange (data path setup)', case)
+                                continue
+                            if isinstance(o, str) and o.startswith('exc '):
+                                if not o.startswith('exc TagCommandError'):
+                                    ck.count('data-path-undocumented-exception:' + o[4:])
+                                continue
+                            if path == 'dump' or o is None:
+                                continue          # dump() reads without MAC by design; None = nothing handed out
+                            # what the card really holds
+                            if o[0] == 'ndef':
+                                good = o[1] == true_octets and o[2] == ln
+                            elif o[0] == 'changed':
+                                good = o[2] == true_octets     # (the `changed` flag itself is not block data)
+                            else:
+                                good = o[1] == b''.join(card.mem[b] for b in blocks)
+                            if masks is None and not good:
+                                ck.violation(kind + '-data-path-wrong-undisturbed:' + path, 'undisturbed %s does not return the card content' % path, case)
+                            if masks is not None and isauth and not good:
+                                ck.violation('%s-%s-returned-modified-data' % (kind, path.replace('_', '-')),
+                                             '%s handed out block data that differs from what the card holds (modified in transit, MAC '
+                                             'not verified) while is_authenticated is True' % path, case)
+
+
 def main():
     ck = Check('C20')
     ck.trusted = ['Coq 8.16.1 kernel; vm_compute for the DES known-answer examples and table side conditions; no native_compute',
@@ -599,6 +737,8 @@ def main():
                                 None, 'boundary-mc')
     run.flush()
 
+    data_paths(ck, rng, quick)
+
     # the card model against the simulated card on damaged commands (no reader involved)
     for _ in range(200 if quick else 3000):
         lites, before, cmds = rng.choice(fuzz_pool)
@@ -695,7 +835,7 @@ def main():
                    'selections (every single readable block, invalid selections, pairs in the thorough tier), each script repeated with every '
                    'single-bit modification of every response (first base case per product in quick, all in thorough; samples otherwise) and '
                    'random 2-8 bit modifications; NTAG21x: all five products, every single-bit modification of the PWD_AUTH response, every '
-                   'password at Hamming distance 1, protect then authenticate; representation boundaries of the stored fields the code computes with (FeliCa Lite-S card key version 0/1/FFh/100h/FFFEh/FFFFh, WCNT up to FFFFFFh, MC bytes at their extremes; NTAG21x AUTH0 0/3/4/cfg../last/FFh, ACCESS byte extremes, PWD/PACK all-zero / all-FF) with protect with and without password and authenticate after it. non-trivial = a run with a modified response, a key mismatch, '
+                   'password at Hamming distance 1, protect then authenticate; representation boundaries of the stored fields the code computes with (FeliCa Lite-S card key version 0/1/FFh/100h/FFFEh/FFFFh, WCNT up to FFFFFFh, MC bytes at their extremes; NTAG21x AUTH0 0/3/4/cfg../last/FFh, ACCESS byte extremes, PWD/PACK all-zero / all-FF) with protect with and without password and authenticate after it; every data path of an NDEF formatted Lite / Lite-S card (tag.ndef through the tt3.py base class: attribute and data blocks, has_changed, read_from_ndef_service, read_with_mac, dump), authenticated and not, with one-shot and persistent single-/multi-bit tampering of data blocks, of the attribute block (also with adjusted checksum), of the MAC block and of both. non-trivial = a run with a modified response, a key mismatch, '
                    'a protect/authenticate sequence or a MAC read (everything but pure argument checks); distinct by hash of the case',
               explanation='theorems over all passwords, keys, challenges, card contents and channel behaviours for the model (exact MAC '
                           'soundness; key equality modulo parity; key inequality under the ideal-MAC premise) + differential run of the real '
@@ -789,6 +929,21 @@ def replay(ck, rec):
         res = run_ntag(case['cfg'], init, ops, mu)
         print('replay observations:', res['obs'])
         ntag_monitor(ck, case['cfg'], ops, res, mu, case)
+        ck.case(repr(case), True)
+    elif case.get('family') == 'data-path':
+        init = {int(b): bytes.fromhex(v) for b, v in case['init'].items()}
+        masks = None if case['tamper'] is None else {int(b): bytes.fromhex(m) for b, m in case['tamper'].items()}
+        o, isauth, card = run_data_path(case['lites'], case['authenticated'], init, bytes.fromhex(case['key']), case['path'], masks,
+                                        case['once'], case['blocks'])
+        print('replay observation:', repr(o)[:300], 'is_authenticated =', isauth)
+        ln = case['ln']
+        true_octets = b''.join(init[b] for b in range(1, (ln + 15) // 16 + 1))[:ln]
+        if isinstance(o, tuple) and masks is not None and isauth and case['path'] != 'dump':
+            good = (o[1] == true_octets and o[2] == ln) if o[0] == 'ndef' else \
+                (o[2] == true_octets) if o[0] == 'changed' else (o[1] == b''.join(card.mem[b] for b in case['blocks']))
+            if not good:
+                ck.violation('%s-%s-returned-modified-data' % ('lites' if case['lites'] else 'lite', case['path'].replace('_', '-')),
+                             '%s handed out modified block data while is_authenticated is True' % case['path'], case)
         ck.case(repr(case), True)
     else:
         print('nothing to replay in', ck.replay)
